@@ -75,6 +75,10 @@ func branchesReposDecode(b []byte) ([]BranchRepos, error) {
 	}
 
 	l := r.uvarint() // Length
+	if l < 0 || l > len(r.b) {
+		// Every entry takes at least one byte, so a larger count is garbage.
+		return nil, errors.New("malformed BranchRepos")
+	}
 	brs := make([]BranchRepos, l)
 
 	for i := range l {
@@ -168,6 +172,10 @@ func stringSetDecode(b []byte) (map[string]struct{}, error) {
 
 	// Length
 	l := r.uvarint()
+	if l < 0 || l > len(r.b) {
+		// Every entry takes at least one byte, so a larger count is garbage.
+		return nil, errors.New("malformed stringSet")
+	}
 	set := make(map[string]struct{}, l)
 
 	for range l {
@@ -195,7 +203,7 @@ func (b *binaryReader) uvarint() int {
 
 func (b *binaryReader) str() string {
 	l := b.uvarint()
-	if l > len(b.b) {
+	if l < 0 || l > len(b.b) {
 		b.b = nil
 		b.err = errors.New("malformed RepoBranches")
 		return ""
@@ -207,7 +215,7 @@ func (b *binaryReader) str() string {
 
 func (b *binaryReader) bitmap() *roaring.Bitmap {
 	l := b.uvarint()
-	if l > len(b.b) {
+	if l < 0 || l > len(b.b) {
 		b.b = nil
 		b.err = errors.New("malformed BranchRepos")
 		return nil
